@@ -323,12 +323,14 @@ pub struct Cfg {
     pub large: bool,
     /// inject an Unknown answer at each SAT-call position of each query (C17)
     pub faults: bool,
+    /// never precede a case by another query on the same object (C18 counts the calls of ONE query)
+    pub nopre: bool,
     pub shard: (usize, usize),
 }
 
 impl Cfg {
     pub fn from_extra(extra: &[String], max_args: usize) -> Cfg {
-        let mut c = Cfg { max_args, queries: vec!["SE".into(), "DC".into(), "DS".into()], certs: vec![false, true], exhaustive_n: None, large: false, faults: false, shard: (0, 1) };
+        let mut c = Cfg { max_args, queries: vec!["SE".into(), "DC".into(), "DS".into()], certs: vec![false, true], exhaustive_n: None, large: false, faults: false, nopre: false, shard: (0, 1) };
         let mut i = 0;
         while i < extra.len() {
             match extra[i].as_str() {
@@ -337,6 +339,7 @@ impl Cfg {
                 "--exhaustive" => { c.exhaustive_n = Some(extra[i + 1].parse().unwrap()); i += 2 }
                 "--large" => { c.large = true; i += 1 }
                 "--faults" => { c.faults = true; i += 1 }
+                "--nopre" => { c.nopre = true; i += 1 }
                 "--shard" => { let t: Vec<usize> = extra[i + 1].split('/').map(|x| x.parse().unwrap()).collect(); c.shard = (t[0], t[1]); i += 2 }
                 _ => i += 1,
             }
@@ -451,7 +454,7 @@ pub fn run(rng: &mut Rng, count: usize, thorough: bool, cfg: &Cfg, out: &mut Out
                         continue;
                     }
                     // one case in five is preceded by another query on the same solver object
-                    let pre: Option<Q> = if !all && rng.chance(1, 5) {
+                    let pre: Option<Q> = if !all && !cfg.nopre && rng.chance(1, 5) {
                         let supported: Vec<&str> = PROBLEMS.iter().filter(|(s2, _)| s2 == sem).map(|(_, q2)| *q2).collect();
                         let pq = *rng.pick(&supported);
                         let pa = if pq == "SE" || af.n_arguments() == 0 { vec![] } else { pick_args(rng, &af, cfg.max_args) };
